@@ -104,29 +104,38 @@ def run(ctx):
         m = re.search(r"Extending the parser(.*?)Basic usage", txt, re.S)
         if m:
             readme_keys = set(re.findall(r'"(\w+)"\s*:', m.group(1)))
-    used = set()
+    used = {"slot": set(), "extra": set()}
     for f in (R.check_next_arg, R.iscomplete, R.tosieve, R.valid_value, R.valid_type):
         if f is None:
             continue
         for n in walk_no_nested(f.node):
+            key = obj = None
             if isinstance(n, ast.Subscript) and isinstance(n.slice, ast.Constant) and isinstance(n.slice.value, str):
-                used.add(n.slice.value)
-            if isinstance(n, ast.Call) and call_name(n) == "get" and n.args and isinstance(n.args[0], ast.Constant):
-                used.add(n.args[0].value)
-            if isinstance(n, ast.Compare) and isinstance(n.left, ast.Constant) and isinstance(n.left.value, str):
-                used.add(n.left.value)
+                key, obj = n.slice.value, n.value
+            elif isinstance(n, ast.Call) and call_name(n) == "get" and n.args and isinstance(n.args[0], ast.Constant) and isinstance(n.func, ast.Attribute):
+                key, obj = n.args[0].value, n.func.value
+            elif isinstance(n, ast.Compare) and isinstance(n.left, ast.Constant) and isinstance(n.left.value, str) and len(n.comparators) == 1:
+                key, obj = n.left.value, n.comparators[0]
+            if key is None:
+                continue
+            level = "extra" if "extra_arg" in norm(obj) else "slot"
+            used[level].add(key)
+    readme_slot = {k for k in readme_keys if k not in ("write_tag",)} - {"required"} | ({"required"} & readme_keys)
     allkeys = documented["slot"] | documented["extra"] | readme_keys
     if len(allkeys) < 6:
         raise AnalysisError("Y2", "documented keys not found (CommandArg / README)")
-    essential = {"name", "type", "required", "values", "extra_arg", "extension", "extension_values", "valid_for"}
-    for k in sorted(allkeys):
-        if k in used:
-            ctx.holds("Y2", "key %r is read by the interpreter/serializer" % k)
-        elif k in essential:
-            ctx.violation("Y2", R.check_next_arg, "key-ignored:%s" % k, "the documented definition key %r is never read: definitions using it are "
-                          "silently misinterpreted" % k, node=R.check_next_arg.node)
-        else:
-            ctx.notice("Y2", "documented key %r is accepted but ignored by the interpreter and the serializer" % k)
+    essential = {"slot": {"name", "type", "required", "values", "extra_arg", "extension", "extension_values"},
+                 "extra": {"type", "values", "valid_for"}}
+    for level, keys in (("slot", documented["slot"] | (readme_keys - documented["extra"])), ("extra", documented["extra"])):
+        for k in sorted(keys):
+            if k in used[level]:
+                ctx.holds("Y2", "%s-level key %r is read by the interpreter/serializer" % (level, k))
+            elif k in essential[level]:
+                ctx.violation("Y2", R.check_next_arg, "key-ignored:%s:%s" % (level, k), "the documented %s-level definition key %r is never read: "
+                              "definitions using it are silently misinterpreted" % (level, k), node=R.check_next_arg.node,
+                              witness="a custom command whose definition restricts values / names an extension is not checked accordingly")
+            else:
+                ctx.notice("Y2", "documented %s-level key %r is accepted but ignored by the interpreter and the serializer" % (level, k))
 
     # ---- Y3 -----------------------------------------------------------------------
     c01.t2(ctx, R)
